@@ -323,12 +323,14 @@ class ServiceRun:
                 sid, spec = st[1], st[2]
                 func, action = self.make_service(sid, spec, list(registered))
                 self.log("svc-spawn", sid, visible_expected=sorted(f"r{r}" for r in registered))
+                # 'cancel' is the default teardown action: it is left out every other time
+                act_kw = {} if (action == "cancel" and sid % 3 != 0) else {"teardown_action": action}
                 if spec["spawn_via"] == "shortcut":
-                    val = await start_service_task(func, f"svc{sid}", teardown_action=action)
+                    val = await start_service_task(func, f"svc{sid}", **act_kw)
                 elif sid % 2:
-                    val = await ctx.start_service_task(func=func, name=f"svc{sid}", teardown_action=action)  # all by keyword
+                    val = await ctx.start_service_task(func=func, name=f"svc{sid}", **act_kw)  # all by keyword
                 else:
-                    val = await ctx.start_service_task(func, f"svc{sid}", teardown_action=action)
+                    val = await ctx.start_service_task(func, f"svc{sid}", **act_kw)
                 self.start_values[sid] = val
                 self.log("reg", f"s{sid}", start_value=repr(val))
             elif kind == "sleep":
